@@ -229,6 +229,7 @@ class World:
         self.grad_poisoned = False
         self.aborted_backward = False
         self.graph_cycle_seen = False
+        self.index_modified = False
         self.twin_skip_grad = set()
         self.exact = bool(self.cfg.get("exact", False))
         dts = self.cfg.get("dtypes", ["f8"])
@@ -773,6 +774,8 @@ class World:
             del rargs, kw
             return out
         del rargs, kw
+        if od.name == "getitem" and isinstance(t, Tensor):
+            self._check_index_untouched(t, p.get("index"))
         if not isinstance(t, Tensor):
             del t
             return Outcome("unexp", "NotATensor", "result is not a Tensor")
@@ -929,6 +932,13 @@ class World:
         del rargs
         same_obj = ret is t
         del ret
+        if form == "setitem" and idx is not None:
+            want = dec_index(ev["index"])
+            wt = want if isinstance(want, tuple) else (want,)
+            it = idx if isinstance(idx, tuple) else (idx,)
+            for a, b in zip(wt, it):
+                if isinstance(a, np.ndarray) and (a.shape != b.shape or not np.array_equal(a, b)):
+                    self.index_modified = True
         if expect_fail and expect_fail != "either":
             # the statement was applied although the model expected NumPy-level rejection:
             # bring the models along (value-only) and report the outcome class
@@ -994,6 +1004,23 @@ class World:
             if c is not None:
                 stack.extend(c.variables)
         return False
+
+    def _check_index_untouched(self, t, enc):
+        """C12: the index object handed to MyGrad (kept by the recorded op) still holds what the
+        caller put into it"""
+        if enc is None:
+            return
+        c = t.creator
+        kept = getattr(c, "index", None) if c is not None else None
+        if kept is None:
+            return
+        want = dec_index(enc)
+        want = want if isinstance(want, tuple) else (want,)
+        kept = kept if isinstance(kept, tuple) else (kept,)
+        for a, b in zip(want, kept):
+            if isinstance(a, np.ndarray) and isinstance(b, np.ndarray):
+                if a.shape != b.shape or not np.array_equal(a, b):
+                    self.index_modified = True
 
     def _tape_inplace(self, h, ev, refs, idx, mask):
         tp = self.tape
